@@ -495,7 +495,10 @@ class WARCRecorder(object):
         Returns:
             str, None: A string in the form ``type/subtype`` or None.
         '''
-        match = re.match(r'([a-zA-Z0-9-]+/[a-zA-Z0-9-]+)', value)
+        # type and subtype are tokens: 'image/svg+xml',
+        # 'application/vnd.ms-excel'. rfc7231 section 3.1.1.1.
+        token = r"[a-zA-Z0-9!#$%&'*+.^_`|~-]+"
+        match = re.match(r'({0}/{0})'.format(token), value)
 
         if match:
             return match.group(1)
